@@ -435,4 +435,234 @@ theorem pathOf_prefix (dist : Nat → Dist) (k E m1 m2 : Nat) : ∀ (L L' : Nat)
       subst this
       exact heq
 
+/-! ## the memoising allocator -/
+
+section Allocator
+variable {κ : Type} [DecidableEq κ]
+
+theorem lookup_nil (key : κ) : lookup ([] : List (κ × Nat)) key = none := rfl
+
+theorem lookup_cons (c : List (κ × Nat)) (k : κ) (s : Nat) (key : κ) :
+    lookup ((k, s) :: c) key = if k = key then some s else lookup c key := by
+  unfold lookup
+  by_cases h : k = key
+  · simp [List.find?, h]
+  · have hb : (k == key) = false := by simpa using h
+    simp [List.find?, hb, h]
+
+/-- invariant of the allocator for blocks of size `size key`: every cached block lies below the
+    counter and blocks of different keys do not overlap -/
+structure Inv (size : κ → Nat) (st : Alloc κ) : Prop where
+  bound : ∀ key s, lookup st.cache key = some s → s + size key ≤ st.count
+  disj : ∀ k1 k2 s1 s2, lookup st.cache k1 = some s1 → lookup st.cache k2 = some s2 → k1 ≠ k2 →
+    s1 + size k1 ≤ s2 ∨ s2 + size k2 ≤ s1
+
+theorem inv_init (size : κ → Nat) (c0 : Nat) : Inv size (⟨c0, []⟩ : Alloc κ) :=
+  ⟨by intro key s h; simp [lookup_nil] at h, by intro k1 k2 s1 s2 h; simp [lookup_nil] at h⟩
+
+theorem req_spec (size : κ → Nat) (st : Alloc κ) (hinv : Inv size st) (key : κ) :
+    Inv size (req st key (size key)).1 ∧
+    lookup (req st key (size key)).1.cache key = some (req st key (size key)).2 ∧
+    (∀ key' s, lookup st.cache key' = some s → lookup (req st key (size key)).1.cache key' = some s) ∧
+    st.count ≤ (req st key (size key)).1.count := by
+  unfold req
+  cases hl : lookup st.cache key with
+  | some s =>
+    exact ⟨hinv, hl, fun _ _ h => h, le_refl _⟩
+  | none =>
+    dsimp only
+    refine ⟨⟨?_, ?_⟩, ?_, ?_, by omega⟩
+    · intro key' s h
+      rw [lookup_cons] at h
+      dsimp only
+      split at h
+      · rename_i hk
+        cases h
+        subst hk
+        omega
+      · have := hinv.bound key' s h
+        omega
+    · intro k1 k2 s1 s2 h1 h2 hne
+      rw [lookup_cons] at h1 h2
+      split at h1 <;> split at h2
+      · rename_i e1 e2
+        exact absurd (e1.symm.trans e2) hne
+      · rename_i e1 _
+        cases h1
+        subst e1
+        right
+        exact hinv.bound k2 s2 h2
+      · rename_i _ e2
+        cases h2
+        subst e2
+        left
+        exact hinv.bound k1 s1 h1
+      · exact hinv.disj k1 k2 s1 s2 h1 h2 hne
+    · rw [lookup_cons]
+      simp
+    · intro key' s h
+      rw [lookup_cons]
+      split
+      · rename_i hk
+        subst hk
+        rw [hl] at h
+        cases h
+      · exact h
+
+theorem reqAll_spec (size : κ → Nat) : ∀ (reqs : List (κ × Nat)) (st : Alloc κ), Inv size st →
+    (∀ r ∈ reqs, r.2 = size r.1) →
+    Inv size (reqAll st reqs).1 ∧
+    (∀ key' s, lookup st.cache key' = some s → lookup (reqAll st reqs).1.cache key' = some s) ∧
+    (∀ r ∈ reqs, ∃ s, lookup (reqAll st reqs).1.cache r.1 = some s) ∧
+    st.count ≤ (reqAll st reqs).1.count
+  | [], st, hinv, _ => by
+    simp only [reqAll]
+    exact ⟨hinv, fun _ _ h => h, by simp, le_refl _⟩
+  | (key, n) :: rest, st, hinv, hsz => by
+    have hn : n = size key := hsz (key, n) (List.mem_cons_self)
+    subst hn
+    obtain ⟨h1, h2, h3, h4⟩ := req_spec size st hinv key
+    obtain ⟨i1, i2, i3, i4⟩ := reqAll_spec size rest (req st key (size key)).1 h1
+      (fun r hr => hsz r (List.mem_cons_of_mem _ hr))
+    simp only [reqAll]
+    refine ⟨i1, fun key' s h => i2 key' s (h3 key' s h), ?_, le_trans h4 i4⟩
+    intro r hr
+    rcases List.mem_cons.1 hr with rfl | hr
+    · exact ⟨_, i2 _ _ h2⟩
+    · exact i3 r hr
+
+end Allocator
+
+/-! ## time segments -/
+
+theorem lastLevel_some (p : Nat → Bool) : ∀ (n L : Nat), lastLevel p n = some L →
+    L < n ∧ p L = true ∧ ∀ L', L < L' → L' < n → p L' = false
+  | 0, L, h => by simp [lastLevel] at h
+  | n + 1, L, h => by
+    unfold lastLevel at h
+    split at h
+    · rename_i hp
+      cases h
+      exact ⟨by omega, hp, fun L' h1 h2 => by omega⟩
+    · rename_i hp
+      obtain ⟨h1, h2, h3⟩ := lastLevel_some p n L h
+      refine ⟨by omega, h2, ?_⟩
+      intro L' hl hl'
+      rcases Nat.lt_or_ge L' n with hlt | hge
+      · exact h3 L' hl hlt
+      · have : L' = n := by omega
+        subst this
+        simpa using hp
+
+theorem lastLevel_none (p : Nat → Bool) : ∀ (n : Nat), lastLevel p n = none → ∀ L, L < n → p L = false
+  | 0, _, L, hL => by omega
+  | n + 1, h, L, hL => by
+    unfold lastLevel at h
+    split at h
+    · cases h
+    · rename_i hp
+      rcases Nat.lt_or_ge L n with hlt | hge
+      · exact lastLevel_none p n h L hlt
+      · have : L = n := by omega
+        subst this
+        simpa using hp
+
+/-- from a level whose lower end is `<= t` on, some level's segment contains `t` -/
+theorem exists_inSeg_ge (t0 : Rat) (bts : List Rat) (t : Rat) : ∀ (j L : Nat), L + j = bts.length →
+    segLo t0 bts L ≤ t → ∃ L', L ≤ L' ∧ L' ≤ bts.length ∧ inSeg t0 bts L' t = true
+  | 0, L, hL, hlo => by
+    refine ⟨L, le_refl _, by omega, ?_⟩
+    unfold inSeg
+    have : bts[L]? = none := List.getElem?_eq_none_iff.2 (by omega)
+    rw [this]
+    simp [hlo]
+  | j + 1, L, hL, hlo => by
+    have hlt : L < bts.length := by omega
+    by_cases hh : t < bts[L]
+    · refine ⟨L, le_refl _, by omega, ?_⟩
+      unfold inSeg
+      rw [List.getElem?_eq_getElem hlt]
+      simp [hlo, hh]
+    · have hlo' : segLo t0 bts (L + 1) ≤ t := by
+        simp only [segLo]
+        rw [List.getD_eq_getElem?_getD, List.getElem?_eq_getElem hlt]
+        simpa using not_lt.1 hh
+      obtain ⟨L', h1, h2, h3⟩ := exists_inSeg_ge t0 bts t j (L + 1) (by omega) hlo'
+      exact ⟨L', by omega, h2, h3⟩
+
+theorem inSeg_lo (t0 : Rat) (bts : List Rat) (L : Nat) (t : Rat) (h : inSeg t0 bts L t = true) :
+    segLo t0 bts L ≤ t := by
+  unfold inSeg at h
+  simp only [Bool.and_eq_true, decide_eq_true_eq] at h
+  exact h.1
+
+/-- every time stamp from `t0` on is covered by a segment -/
+theorem levelAt_isSome (t0 : Rat) (bts : List Rat) (t : Rat) (h : t0 ≤ t) :
+    ∃ L, levelAt t0 bts t = some L := by
+  cases hl : levelAt t0 bts t with
+  | some L => exact ⟨L, rfl⟩
+  | none =>
+    exfalso
+    obtain ⟨L', _, h2, h3⟩ := exists_inSeg_ge t0 bts t bts.length 0 (by omega) (by simpa [segLo] using h)
+    have := lastLevel_none _ _ hl L' (by omega)
+    rw [h3] at this
+    cases this
+
+/-- the level is monotone in time (for any branching times, sorted or not) -/
+theorem levelAt_mono (t0 : Rat) (bts : List Rat) (t t' : Rat) (L L' : Nat) (htt : t' ≤ t)
+    (h : levelAt t0 bts t = some L) (h' : levelAt t0 bts t' = some L') : L' ≤ L := by
+  obtain ⟨_, _, hmax⟩ := lastLevel_some _ _ _ h
+  obtain ⟨hL', hp', _⟩ := lastLevel_some _ _ _ h'
+  by_contra hcon
+  have hlo : segLo t0 bts L' ≤ t := le_trans (inSeg_lo t0 bts L' t' hp') htt
+  obtain ⟨L'', h1, h2, h3⟩ := exists_inSeg_ge t0 bts t (bts.length - L') L' (by omega) hlo
+  have := hmax L'' (by omega) (by omega)
+  rw [h3] at this
+  cases this
+
+theorem rankIn_lt_segCount (t0 : Rat) (bts : List Rat) (L : Nat) : ∀ (ts : List Rat) (i : Nat)
+    (hi : i < ts.length), inSeg t0 bts L ts[i] = true → rankIn t0 bts L ts i < segCount t0 bts L ts
+  | [], i, hi, _ => by simp at hi
+  | x :: ts, 0, _, h => by
+    simp only [List.getElem_cons_zero] at h
+    simp [rankIn, segCount, List.filter, h]
+  | x :: ts, i + 1, hi, h => by
+    simp only [List.getElem_cons_succ] at h
+    have ih := rankIn_lt_segCount t0 bts L ts i (by simpa using hi) h
+    unfold rankIn segCount at *
+    simp only [List.take_succ_cons, List.filter]
+    cases inSeg t0 bts L x <;> simp <;> omega
+
+/-! ## requests of the tree / flat policies -/
+
+theorem treeReqs_consistent (c : TreeCfg) (ts : List Rat) :
+    ∀ r ∈ treeReqs c ts, r.2 = (fun p : List Nat => segCount c.t0 c.bts p.length ts) r.1 := by
+  intro r hr
+  simp only [treeReqs, memberReqs, List.mem_flatMap, List.mem_map, List.mem_range] at hr
+  obtain ⟨m, _, L, _, rfl⟩ := hr
+  simp [TreeCfg.path, pathOf_length]
+
+theorem treeReqs_mem (c : TreeCfg) (ts : List Rat) (m L : Nat) (hm : m < c.E)
+    (hL : L < c.bts.length + 1) : (c.path m L, segCount c.t0 c.bts L ts) ∈ treeReqs c ts := by
+  simp only [treeReqs, memberReqs, List.mem_flatMap, List.mem_map, List.mem_range]
+  exact ⟨m, hm, L, by simpa [TreeCfg.nb] using hL, rfl⟩
+
+theorem treeAlloc_spec (c : TreeCfg) (ts : List Rat) (count0 : Nat) :
+    Inv (fun p : List Nat => segCount c.t0 c.bts p.length ts) (treeAlloc c ts count0) ∧
+    ∀ m L, m < c.E → L < c.bts.length + 1 →
+      ∃ s, lookup (treeAlloc c ts count0).cache (c.path m L) = some s := by
+  obtain ⟨h1, _, h3, _⟩ := reqAll_spec (fun p : List Nat => segCount c.t0 c.bts p.length ts)
+    (treeReqs c ts) ⟨count0, []⟩ (inv_init _ count0) (treeReqs_consistent c ts)
+  refine ⟨h1, ?_⟩
+  intro m L hm hL
+  exact h3 _ (treeReqs_mem c ts m L hm hL)
+
+theorem flatReqs_consistent (pol : Policy) (E n : Nat) :
+    ∀ r ∈ flatReqs pol E n, r.2 = (fun _ : Option Nat => n) r.1 := by
+  intro r hr
+  simp only [flatReqs, List.mem_map, List.mem_range] at hr
+  obtain ⟨m, _, rfl⟩ := hr
+  cases pol <;> rfl
+
+
 end RtcVerif.C07
